@@ -19,10 +19,21 @@ pub fn build_model(sys: &System) -> RealModel {
         .iter()
         .map(|(s, d, t)| Envelope { src: Id::from(*s as usize), dst: Id::from(*d as usize), msg: M { tag: *t, who: None } })
         .collect();
-    let net = match sys.net {
-        NetKind::Ordered => Network::new_ordered(envs),
-        NetKind::Dup => Network::new_unordered_duplicating(envs),
-        NetKind::NonDup => Network::new_unordered_nonduplicating(envs),
+    // an initially empty network is selected by its name (the string interface of `Network`),
+    // a non-empty one through the constructors
+    let net: Network<M> = if envs.is_empty() {
+        let name = match sys.net {
+            NetKind::Ordered => "ordered",
+            NetKind::Dup => "unordered_duplicating",
+            NetKind::NonDup => "unordered_nonduplicating",
+        };
+        name.parse().unwrap_or_else(|_| panic!("Network::from_str rejects its own name {:?}", name))
+    } else {
+        match sys.net {
+            NetKind::Ordered => Network::new_ordered(envs),
+            NetKind::Dup => Network::new_unordered_duplicating(envs),
+            NetKind::NonDup => Network::new_unordered_nonduplicating(envs),
+        }
     };
     let actors = sys.tables.iter().map(|t| ScriptActor(Arc::new(t.clone())));
     let lossy = if sys.lossy { LossyNetwork::Yes } else { LossyNetwork::No };
